@@ -4051,6 +4051,18 @@ class Phonopy:
         # (they would be scaled again at every rebuild).
         if self._frequency_scale_factor is None:
             self._force_constants = self._dynamical_matrix.force_constants
+        else:
+            # Same rule as in DynamicalMatrix: only an own contiguous double
+            # array is kept without copy.
+            fc = self._force_constants
+            if not (
+                isinstance(fc, np.ndarray)
+                and fc.dtype == np.dtype("double")
+                and fc.flags.aligned
+                and fc.flags.owndata
+                and fc.flags.c_contiguous
+            ):
+                self._force_constants = np.array(fc, dtype="double", order="C")
 
         if self._group_velocity is not None:
             self._set_group_velocity()
